@@ -3,8 +3,10 @@ package c04
 
 import (
 	"bytes"
+	"encoding/json"
 	"fmt"
 	"strings"
+	"sync"
 	"time"
 
 	"verifharness/internal/core"
@@ -16,8 +18,145 @@ import (
 func init() {
 	core.Register(&core.Simple{
 		Id: "C04", Lvl: "exploration", Quick: 1500, Thorough: 60000, PerBatch: 750, Width: 32, Timeout: 900,
-		RuleText: "each case builds a generated account database (1-5 accounts, with/without guest, passwords 0..72 arbitrary bytes), logs two observers in, snapshots config dir + file root + chat/transfer tables, then lets a peer send generated handshake bytes, a first transaction with a (login,password) variant and 0-3 appended privileged requests; the reference predicate (valid handshake, account exists with empty login = guest, password equals current password) decides whether the peer must be logged in. distinct = (handshake class, credential class, appended request type, expected outcome); non-trivial = every case (each runs the real handleNewConnection)",
+		RuleText: "each case builds a generated account database (1-5 accounts, with/without guest, passwords 0..72 arbitrary bytes), logs two observers in, snapshots config dir + file root + chat/transfer tables, then lets a peer send generated handshake bytes, a first transaction with a (login,password) variant and 0-3 appended privileged requests; the reference predicate (valid handshake, account exists with empty login = guest, password equals current password) decides whether the peer must be logged in. distinct = (handshake class, credential class, appended request type, expected outcome); a race-build stress batch lets 60-120 peers fail to log in concurrently while three observers broadcast continuously and a hook delay stretches every registration. non-trivial = every case (each runs the real handleNewConnection)",
 		Case: runCase,
+		Extra: func(tier string, seed int64) []core.Batch {
+			n := 12
+			if tier == "thorough" {
+				n = 200
+			}
+			a, _ := json.Marshal(map[string]int{"runs": n})
+			return []core.Batch{{Name: "stress", Race: true, Args: a, Timeout: 1200}}
+		},
+		RunExtra: runStress,
+	})
+}
+
+// runStress (race build): many peers fail to log in while observers keep broadcasting and a hook delay holds
+// every registration open; whatever a failing peer receives must still be just the handshake reply and at most
+// one error reply, and the observers must never be told about it.
+func runStress(b core.Batch, em *core.Emitter) {
+	var a struct {
+		Runs int `json:"runs"`
+	}
+	json.Unmarshal(b.Args, &a)
+	core.Parallel(a.Runs, 4, func(run int) {
+		id := fmt.Sprintf("C04/stress/%d", run)
+		core.SafeCase(em, id, func() {
+			em.Begin(id, nil)
+			r := core.NewRand(b.Seed, uint64(run), 0x04)
+			srv, err := fixture.New(fixture.Options{Agreement: "AGREEMENT", Board: "BOARD\r", Accounts: []fixture.Account{
+				{Login: "guest", Name: "guest", Password: "guestpw", Access: fixture.GuestBits()},
+				{Login: "admin", Name: "admin", Access: rc.AllBits()},
+				{Login: "locked", Name: "Locked", Password: "the-right-password", Access: rc.AllBits()},
+			}})
+			if err != nil {
+				em.Emit(core.Result{Case: id, Verdict: core.Inconclusive, Msg: err.Error()})
+				return
+			}
+			defer srv.Close()
+			srv.OnEvent = func(name string, cid [2]byte, x uint32) {
+				if name == "conn.registered" {
+					time.Sleep(time.Duration(100+int(cid[1])%7*100) * time.Microsecond)
+				}
+			}
+			var obs []*refclient.Client
+			for i := 0; i < 3; i++ {
+				o, err := refclient.LoginAs(srv, fmt.Sprintf("10.4.9.%d:1", i+1), "admin", "", fmt.Sprintf("Obs%d", i))
+				if err != nil {
+					em.Emit(core.Result{Case: id, Verdict: core.Inconclusive, Msg: err.Error()})
+					return
+				}
+				obs = append(obs, o)
+			}
+			stop := make(chan struct{})
+			var bwg sync.WaitGroup
+			for i, o := range obs {
+				bwg.Add(1)
+				go func(i int, o *refclient.Client) {
+					defer bwg.Done()
+					for k := 0; ; k++ {
+						select {
+						case <-stop:
+							return
+						default:
+						}
+						o.Send(105, rc.FS(101, fmt.Sprintf("chatter-%d-%d", i, k)))
+						o.Send(355, rc.FS(101, "broadcast"))
+						o.Send(304, rc.FS(102, fmt.Sprintf("Obs%d", i)), rc.F(104, rc.U16(k)))
+						time.Sleep(50 * time.Microsecond)
+					}
+				}(i, o)
+			}
+			nPeers := 60 + r.Intn(60)
+			peers := make([]*refclient.Client, nPeers)
+			var wg sync.WaitGroup
+			for p := 0; p < nPeers; p++ {
+				wg.Add(1)
+				go func(p int) {
+					defer wg.Done()
+					rr := core.NewRand(b.Seed, uint64(run), uint64(p), 4)
+					cl := refclient.Connect(srv, fmt.Sprintf("10.4.%d.%d:%d", 10+p/250, 1+p%250, 5000+p))
+					peers[p] = cl
+					login := core.Pick(rr, []string{"locked", "guest", "nobody", "admin2", "locked"})
+					pw := core.Pick(rr, []string{"wrong", "", "the-right-passwor", "the-right-password-", "GUESTPW"})
+					t1 := rc.Tran{Type: 107, ID: 1, Fields: []rc.Field{rc.F(105, rc.Obfuscate([]byte(login))), rc.F(106, rc.Obfuscate([]byte(pw))), rc.FS(102, "Intruder")}}
+					stream := append(rc.Handshake(), t1.Encode()...)
+					stream = append(stream, rc.Tran{Type: 300, ID: 2}.Encode()...)
+					stream = append(stream, rc.Tran{Type: 105, ID: 3, Fields: []rc.Field{rc.FS(101, "INTRUDER-CHAT")}}.Encode()...)
+					cl.Conn.Send(stream)
+					select {
+					case <-cl.Conn.Done:
+					case <-time.After(refclient.Watchdog):
+					}
+				}(p)
+			}
+			wg.Wait()
+			close(stop)
+			bwg.Wait()
+			if !srv.Quiesce(2 * refclient.Watchdog) {
+				em.Emit(core.Result{Case: id, Verdict: core.Inconclusive, Msg: "no quiescence"})
+				return
+			}
+			res := core.Result{Case: id, Class: fmt.Sprintf("stress/peers%d", nPeers/30), Verdict: core.Held, Obs: map[string]int{"stress_failing_peers": nPeers},
+				Sample: map[string]any{"failing_peers": nPeers, "observers_broadcasting": len(obs)}}
+			for p, cl := range peers {
+				out := cl.Conn.Out()
+				if !cl.Conn.HandlerDone() {
+					res.Verdict, res.Key, res.Msg = core.Violated, "C04/stress/failed-login-stays-open", fmt.Sprintf("peer %d with wrong credentials was not disconnected", p)
+					break
+				}
+				if !bytes.HasPrefix(out, rc.HandshakeReply) {
+					continue
+				}
+				frames, rest, ferr := rc.SplitFrames(out[8:])
+				var fl []rc.Tran
+				for _, f := range frames {
+					if f.Type != fixture.MarkerType {
+						fl = append(fl, f)
+					}
+				}
+				if ferr != nil || len(rest) > 0 || len(fl) > 1 || (len(fl) == 1 && !(fl[0].IsReply == 1 && fl[0].Err != 0 && fl[0].ID == 1)) {
+					res.Verdict, res.Key = core.Violated, "C04/stress/unauth-output"
+					res.Msg = fmt.Sprintf("peer %d failed to log in while others were broadcasting, yet it received %d transactions (parse error %v): %v", p, len(fl), ferr, fl)
+					break
+				}
+				res.Obs["stress_streams_checked"]++
+			}
+			for _, o := range obs {
+				for _, t := range o.Inbox() {
+					if t.Type == 302 {
+						res.Verdict, res.Key = core.Violated, "C04/stress/observer-disturbed"
+						res.Msg = fmt.Sprintf("an observer received a user-left notice although only failing logins came and went: %v", t)
+					}
+					if nm, _ := t.Get(102); t.Type == 301 && string(nm) == "Intruder" {
+						res.Verdict, res.Key = core.Violated, "C04/stress/observer-disturbed"
+						res.Msg = "an observer was told about a user who never logged in"
+					}
+				}
+			}
+			em.Emit(res)
+		})
 	})
 }
 
